@@ -42,6 +42,7 @@ namespace json = llvm::json;
 
 static llvm::cl::OptionCategory Cat("astfacts");
 static llvm::cl::opt<std::string> OptFuncs("funcs", llvm::cl::desc("regex of function qualified names"), llvm::cl::cat(Cat));
+static llvm::cl::opt<std::string> OptFuncsCalling("funcs-calling", llvm::cl::desc("also dump functions whose body calls a callee whose qualified name matches this regex"), llvm::cl::cat(Cat));
 static llvm::cl::opt<std::string> OptTables("tables", llvm::cl::desc("regex of constant variables to evaluate"), llvm::cl::cat(Cat));
 static llvm::cl::opt<std::string> OptEnums("enums", llvm::cl::desc("regex of enums"), llvm::cl::cat(Cat));
 static llvm::cl::opt<std::string> OptRecords("records", llvm::cl::desc("regex of classes"), llvm::cl::cat(Cat));
@@ -583,6 +584,19 @@ struct Dumper {
   }
 };
 
+struct CallFinder : RecursiveASTVisitor<CallFinder> {
+  llvm::Regex R;
+  bool found = false;
+  explicit CallFinder(const std::string& re) : R(re) {}
+  bool VisitCallExpr(CallExpr* ce) {
+    if (const FunctionDecl* fd = ce->getDirectCallee()) {
+      if (R.match(Dumper::qname(fd))) { found = true; return false; }
+    }
+    return true;
+  }
+  bool TraverseLambdaExpr(LambdaExpr*) { return true; }
+};
+
 struct Visitor : RecursiveASTVisitor<Visitor> {
   Dumper& D;
   json::Array functions, discards, globals, constcasts, funcindex;
@@ -635,7 +649,13 @@ struct Visitor : RecursiveASTVisitor<Visitor> {
       o["line"] = (int64_t)D.lineOf(F->getBeginLoc()); o["end_line"] = (int64_t)D.lineOf(F->getEndLoc());
       funcindex.push_back(std::move(o));
     }
-    if (!matches(OptFuncs, qn)) return true;
+    bool want = matches(OptFuncs, qn);
+    if (!want && !OptFuncsCalling.empty() && F->getBody()) {
+      CallFinder cf(OptFuncsCalling);
+      cf.TraverseStmt(F->getBody());
+      want = cf.found;
+    }
+    if (!want) return true;
     // de-duplicate instantiations with identical name+location
     std::string key = qn + "@" + D.fileOf(F->getBeginLoc()) + ":" + std::to_string(D.lineOf(F->getBeginLoc()));
     if (F->isTemplateInstantiation()) {
